@@ -19,6 +19,7 @@ type SynthSpec struct {
 	Seed  uint64 `json:"seed"`
 	Dups  int    `json:"dups"` // every Dups-th row repeats an earlier key (0 = none)
 	Big   int    `json:"big,omitempty"` // length of one huge cell in the last column of row 0 (needs ncols >= 2)
+	Groups int   `json:"groups,omitempty"` // >0: composite key (grp,id) with this many group values
 }
 
 func (s SynthSpec) Build() (cols []string, pk []string, rows [][]string) {
@@ -46,6 +47,16 @@ func (s SynthSpec) Build() (cols []string, pk []string, rows [][]string) {
 			row[j] = fmt.Sprintf("v%d_%d", r.Intn(50), j)
 		}
 		rows[i] = row
+	}
+	if s.Groups > 0 {
+		// composite key (grp, id): many rows share the leading key column across block boundaries
+		cols = append([]string{"grp"}, cols...)
+		pk = []string{"grp", "id"}
+		for i := range rows {
+			g := string(rune('A' + (i*7+int(s.Seed%5))%s.Groups))
+			rows[i] = append([]string{g}, rows[i]...)
+		}
+		nc++
 	}
 	if s.Big > 0 && s.Big <= 70000 && nc >= 2 && s.N > 0 {
 		rows[0][nc-1] = strings.Repeat("B", s.Big)
